@@ -26,7 +26,7 @@ EXHAUSTIVE_NOTE = "permutations and subsets of every task with <= 6 (quick) / <=
 
 
 def plan(tier, seed):
-    n = 400 if tier == "quick" else 6000
+    n = 400 if tier == "quick" else 3000
     return [{"seed": seed, "i": i, "tier": tier} for i in range(n)]
 
 
